@@ -57,6 +57,7 @@ type c19Case struct {
 	Digest   string `json:"digest,omitempty"`
 	InputHex string `json:"input_hex"`
 	Gen      string `json:"generator"`
+	Declared string `json:"declared_content_length,omitempty"` // rawput: the Content-Length the request announces, or "chunked"
 	// filled in by the run
 	Impl  *c19Out `json:"impl,omitempty"`
 	Model string  `json:"model,omitempty"`
@@ -287,6 +288,8 @@ func c19RunOne(c *c19Case) *c19Out {
 		}
 	case "server", "client":
 		c19RunProto(c, in, out, &m)
+	case "rawput":
+		c19RunRawPut(c, in, out, &m)
 	default:
 		out.Status, out.Err = "err", "unknown decoder"
 	}
@@ -487,7 +490,7 @@ func c19Evaluate(o *vh.Oracle, r *vh.Result, c *c19Case) error {
 		o = c19BigOracle
 	}
 	gen := strings.SplitN(c.Gen, "@", 2)[0]
-	r.Count(fmt.Sprintf("%s|%s|%d|%x", c.Decoder, c.Digest, len(in), fnv(in)), len(in) > 0)
+	r.Count(fmt.Sprintf("%s|%s|%d|%x|%s", c.Decoder, c.Digest, len(in), fnv(in), c.Declared), len(in) > 0 || c.Declared != "")
 	r.Dist("decoder:" + c.Decoder)
 	r.Dist("gen:" + gen)
 	if c.Impl == nil {
@@ -510,7 +513,10 @@ func c19Evaluate(o *vh.Oracle, r *vh.Result, c *c19Case) error {
 	// "malformed input yields an error": an index whose table has an end offset below the preceding one
 	// (read off the bytes at the fixed caibx offsets) describes no blob and must be refused, whatever
 	// maximum chunk size the file declares for itself
-	if (c.Decoder == "index" || c.Decoder == "httpput") && st == "end" {
+	if (c.Decoder == "index" || c.Decoder == "httpput" || c.Decoder == "rawput") && st == "end" {
+		if _, complete := c04RefParse(in); !complete {
+			r.Fail("predicate", c.Decoder+"/accepts-incomplete-index", fmt.Sprintf("%s decoder accepted %d bytes that end before the tail record of an index (%s)", c.Decoder, len(in), c.Gen), c)
+		}
 		if ref, complete := c04RefParse(in); complete && ref.HdrType == c04IndexType && ref.TblType == c04TableType {
 			var last uint64
 			for i, off := range ref.Offsets {
@@ -547,7 +553,7 @@ func c19Evaluate(o *vh.Oracle, r *vh.Result, c *c19Case) error {
 		ans, err = o.Call("c19.serve", c19ProtoStoreIDs(), vh.Hex(in))
 	case "client":
 		ans, err = o.Call("c19.client", vh.Hex(in))
-	case "index", "httpput":
+	case "index", "httpput", "rawput":
 		ans, err = o.Call("c04.decode", c.Digest, vh.Hex(in))
 		if err == nil {
 			f := strings.SplitN(ans, " ", 4)
@@ -576,7 +582,7 @@ func c19Evaluate(o *vh.Oracle, r *vh.Result, c *c19Case) error {
 		return nil
 	}
 	var want []string
-	if c.Decoder == "index" || c.Decoder == "httpput" {
+	if c.Decoder == "index" || c.Decoder == "httpput" || c.Decoder == "rawput" {
 		if f[2] != "-" {
 			want = []string{strings.ReplaceAll(f[2], "_", " ")}
 		} else {
@@ -989,6 +995,8 @@ func c19Generate(a vh.Args, rng *vh.Rand) []*c19Case {
 	add("httpput", "empty", nil)
 	// 4. the protocol endpoints
 	c19ProtoCases(rng, thorough, add)
+	// 5. PUTs whose announced Content-Length is not what they send
+	c19RawPutCases(rng, &cases)
 	return cases
 }
 
